@@ -490,7 +490,7 @@ pub fn run<D: Dec>(rep: &mut Report) {
         let mut h = t;
         while h < n_hist {
             let mut rng = Rng::fork(seed, (h as u64) << 8 | 0x70 | set as u64);
-            let which = [0usize, 1, 3][h % 3];
+            let which = [0usize, 1, 3, 4, 5][h % 5];
             let long = h < 16; // sixteen long histories: anything that only shows after many bytes
             let bytes = typist.generate(which, &mut rng, if long { hist_len * 400 } else { hist_len });
             let mut w: Walker<D> = Walker::new();
